@@ -503,6 +503,27 @@ def _flatten(e, truth, op_true, out):
     return True
 
 
+def _cnf(e, truth, limit=64):
+    """CNF (list of clauses = lists of literals) of a boolean expression under a polarity; None when too big"""
+    while isinstance(e, ast.UnaryOp) and isinstance(e.op, ast.Not):
+        e, truth = e.operand, not truth
+    if isinstance(e, ast.BoolOp):
+        conj = (isinstance(e.op, ast.And) and truth) or (isinstance(e.op, ast.Or) and not truth)
+        parts = [_cnf(v, truth, limit) for v in e.values]
+        if any(p is None for p in parts):
+            return None
+        if conj:
+            out = [c for p in parts for c in p]
+            return out if len(out) <= limit else None
+        out = [[]]
+        for p in parts:
+            out = [a + b for a in out for b in p]
+            if len(out) > limit:
+                return None
+        return out
+    return [[literal(e, truth)]]
+
+
 class Facts:
     """Literals (canonical atom -> bool) and clauses (disjunctions of literals) known on a
     path.  Assignments kill everything mentioning the assigned root name; assignments of
@@ -594,16 +615,13 @@ class Facts:
                 return all(self._add(v, truth) for v in e.values)
             lits = []
             if _flatten(e, truth, None, lits):
-                live = [(a, t) for (a, t) in lits if not (a in self.d and self.d[a] != t)]
-                if any(a in self.d and self.d[a] == t for (a, t) in lits):
-                    return True
-                if not live:
-                    return False
-                if len(live) == 1:
-                    self.d[live[0][0]] = live[0][1]
-                    self._propagate()
-                    return True
-                self.clauses.append(frozenset(live))
+                return self._add_clause(lits)
+            # a disjunction with conjunctive members: distribute into CNF (bounded)
+            cnf = _cnf(e, truth)
+            if cnf is not None:
+                for cl in cnf:
+                    if not self._add_clause(cl):
+                        return False
             return True
         if isinstance(e, ast.Constant):
             return bool(e.value) == truth
@@ -618,6 +636,20 @@ class Facts:
             if not ok:
                 return False
         return self._propagate()
+
+    def _add_clause(self, lits) -> bool:
+        live = [(a, t) for (a, t) in lits if not (a in self.d and self.d[a] != t)]
+        if any(a in self.d and self.d[a] == t for (a, t) in lits):
+            return True
+        if not live:
+            return False
+        if len(live) == 1:
+            if live[0][0] in self.d and self.d[live[0][0]] != live[0][1]:
+                return False
+            self.d[live[0][0]] = live[0][1]
+            return self._propagate()
+        self.clauses.append(frozenset(live))
+        return True
 
     def _propagate(self) -> bool:
         changed = True
